@@ -496,9 +496,10 @@ class TorSim(object):
         pol = self.close_policy(kind, oid) if self.close_policy else None
         return pol or {"order": "together"}
 
-    def _requested_close(self, kind, oid, line, act):
+    def _requested_close(self, kind, oid, line, act, pol=None):
         """common part of CLOSECIRCUIT / CLOSESTREAM on a live object"""
-        pol = self._policy(kind, oid)
+        if pol is None:
+            pol = self._policy(kind, oid)
         order = pol.get("order", "together")
         obj = (self.circuits if kind == "circuit" else self.streams)[oid]
         if order == "ack-first":
@@ -519,10 +520,7 @@ class TorSim(object):
             cid = int(args[0])
         except (IndexError, ValueError):
             return (512, [("end", "Missing argument to CLOSECIRCUIT")])
-        safe = any(a.lower() == "ifunused" for a in args[1:])
-        for a in args[1:]:
-            if a.lower() != "ifunused":
-                return (512, [("end", 'Unrecognized flag "%s"' % a)]) if "=" not in a else OK
+        safe = any(a.lower() == "ifunused" for a in args[1:])     # other flags are ignored, like Tor
         c = self.circuits.get(cid)
         if c is None:
             return (552, [("end", 'Unknown circuit "%d"' % cid)])
@@ -553,7 +551,7 @@ class TorSim(object):
             how = "CLOSED"
         act = {"a": "sclose" if how == "CLOSED" else "sfail", "id": sid,
                "reason": STREAM_REASON_BY_NUMBER.get(reason, "MISC"), "remote": None}
-        return self._requested_close("stream", sid, "CLOSESTREAM " + rest, act)
+        return self._requested_close("stream", sid, "CLOSESTREAM " + rest, act, pol)
 
     def cmd_extendcircuit(self, rest):
         args = rest.split()
